@@ -57,6 +57,7 @@ func init() {
 				p.Profile += "+late-ack"
 				p.Knobs.LateAck = [][]string{{""}, {"transactions/"}, {"proposals/"}, {"configurations"}}[g.pick(4)]
 			}
+			g.swarmExtras(p, true, true)
 			return p
 		},
 		Arm: func(s *Sys) {
